@@ -9,6 +9,62 @@ COMMON_NOTE = ("Trusted: Lean 4 kernel (+ propext, Classical.choice, Quot.sound 
                "model (lean/Model); the tie to /repo is the correspondence check run on every invocation. ")
 
 CHECKS = {
+ 'C02': dict(
+   text="Theorems: for a gWCS corrector in ANY well-formed state (never corrected, corrected, re-wrapped) and ARBITRARY "
+        "bijective pipeline pieces (every pointing/roll/distortion/velocity-aberration frame) "
+        "old.world_to_tanp(new.det_to_world(p)) = M*old.det_to_tanp(p)+s, in the own plane and (flat-sky hypothesis on the "
+        "plane-to-plane map) in a reference plane, with _tp2tp recovered exactly from its four sample points; for FITS "
+        "(flat-sky model, arbitrary distortion) the same in own and reference plane, exact at the reference pixel with NO "
+        "idealisation, the 9-point stencil exact for quartics; the pre-fix tangent plane of a corrected gWCS applies the "
+        "affine twice. Correspondence: histories + one correction on real FITS (CD/PC/SIP) and mock gWCS correctors "
+        "against the models (chart positions of 10 probes, frames). Oracle: the identity itself on the implementation "
+        "within the rounding / second-order / first-order bounds of the property.",
+   note="Modelled rather than verified: gnomonic curvature (FITS own plane: second order; reference plane at another "
+        "tangent point: first order) and floating-point rounding are tolerances, not theorems; wcslib/gwcs evaluate the "
+        "fixed pipeline pieces.",
+   technique="Lean 4 proof (affine algebra over an ordered field, invariant over correction histories) + differential correspondence",
+   ref="5/C02"),
+ 'C03': dict(
+   text="Theorems: in every state reachable by any sequence of admissible operations (corrections in own or reference "
+        "plane, copy, re-wrap) the six conversions are pairwise inverse and commute (nine identities each for gWCS with "
+        "arbitrary bijective pipeline pieces and for FITS with arbitrary bijective distortion); conversions are pointwise "
+        "maps so shape is preserved. Correspondence: det_to_tanp / sky chart positions of the models vs real correctors "
+        "after histories. Oracle: all round trips and triangles on real correctors for scalar, 0-d, (n,), (1,), (0,), "
+        "(m,n) inputs and the WCSImageCatalog wrappers.",
+   note="Invertibility of the fixed pieces (wcslib iteration, gwcs numerical inverses) and numpy broadcasting are checked "
+        "by the oracle, not proved.",
+   technique="Lean 4 proof (state invariant by induction over operation sequences) + differential correspondence",
+   ref="5/C03"),
+ 'C04': dict(
+   text="Theorems: gWCS - two corrections equal the single (M2M1, M2s1+s2) as STATES, in the own plane and in one fixed "
+        "reference plane; identity; inverse; re-wrapping is the identity on every reachable state (bisimulation); exactly "
+        "one v2v3corr frame and the other frames keep their order, by induction over arbitrary histories. FITS (flat "
+        "sky) - own plane (M1M2, M1s2+s1), reference plane (M2M1, M2s1+s2), identity, inverse. Correspondence: histories "
+        "of 0..6 ops compared with the models after EVERY step (chart positions, frame lists, pipeline validity). "
+        "Oracle: the laws on real correctors, original_wcs snapshots, independence of copies.",
+   note="Aliasing (original WCS, copies) lives in the Python runtime: decided by snapshots on real objects. Curvature and "
+        "rounding as for C02.",
+   technique="Lean 4 proof (group laws of affine maps, bisimulation and frame-count invariants by induction) + differential correspondence",
+   ref="5/C04"),
+ 'C18': dict(
+   text="Theorems: set_correction (any reference plane, any arguments, any operation sequence) preserves CRPIX, CDELT and "
+        "the CD-versus-PC flag; CD and PC+CDELT descriptions of one WCS remain twins (equal sky mapping) after any "
+        "sequence of corrections; missing / non-celestial WCS is rejected (decision logic). Correspondence: the FCorr "
+        "model on both twins vs real astropy WCS twins, new CRVAL vs model. Oracle: attribute-by-attribute snapshots "
+        "(crpix, ctype, cdelt, cunit, SIP arrays, lookup tables, pixel shape/bounds, representation), header round trip, "
+        "ValueError at construction.",
+   note="Header serialisation and wcslib are astropy's: compared, not modelled.",
+   technique="Lean 4 proof (frame conditions, twin invariant by induction) + attribute snapshots on real objects",
+   ref="5/C18"),
+ 'C20': dict(
+   text="Theorems: the shoelace sum of the code equals -2 det J for EVERY map with arbitrary linear and quadratic terms "
+        "about the pixel centre, so tanp_pixel_scale = sqrt|det J| (over the reals); composing with an affine correction "
+        "multiplies it by sqrt|det M| (gWCS), FITS scale is independent of the history; the centre position is the "
+        "detector position of the tangent point. Correspondence: model shoelace on the real corner images. Oracle: "
+        "finite-difference Jacobian of the real det_to_tanp over geometries, positions and histories; units.",
+   note="Square root, higher-than-quadratic distortion terms and rounding are outside the theorems (tolerance 1e-7).",
+   technique="Lean 4 proof (polynomial identity, ring) + finite-difference oracle",
+   ref="5/C20"),
  'C17': dict(
    text="Theorems for every order n over any linearly ordered field: whatever the model of linalg.inv returns is the "
         "two-sided inverse (and therefore the unique one); a singular matrix can only produce the singular error; "
